@@ -40,7 +40,13 @@ def install_fake_mpi():
 # building
 
 def rank_inputs(prog, r, valuation):
-    return {"x": values.make_input(f"x@rank{r}", tuple(4 for _ in range(1)), "float64", valuation)}
+    """one array per placeholder name of the rank's terms (data differ between ranks and between names)"""
+    res = {}
+    for _n, t in rank_outs(prog, r):
+        for name, (shape, dtype) in T.inputs_of(t).items():
+            res[name] = values.make_input(f"{name}@rank{r}", tuple(shape), dtype, valuation)
+    res.setdefault("x", values.make_input(f"x@rank{r}", (4,), "float64", valuation))
+    return res
 
 
 def build_rank(prog, r):
